@@ -122,11 +122,75 @@ func (ex *Exec) buildQueryFull(o *Obligation, modelTerms []*smt.Term, linearize 
 			cands = append(cands, k)
 		}
 	}
+	// the neighbours of the goal's own indices: what an element moved by one (insert, delete, shift) is compared with
+	// (only for quantifiers without a nested one: see expandForall)
+	ex.nbrCands = nil
+	for _, k := range sks {
+		if k.Sort == smt.Int && len(ex.nbrCands) < 8 {
+			ex.nbrCands = append(ex.nbrCands, c.Sub(k, c.IntLit(1)), c.Add(k, c.IntLit(1)))
+		}
+	}
 	if len(cands) > 0 {
 		for i, a := range asserts {
 			if c.HasQuant(a) {
 				asserts[i] = ex.expandForall(a, cands, true, 2)
 			}
+		}
+	}
+	// second round: instantiation by matching modulo the offset. A hypothesis  forall q. ... A[off + q] ...  is
+	// instantiated for every ground read A[t] in the query (after the first round) at q := t - off; this is what
+	// the solvers' syntactic matching cannot do, and what proofs about shifted slices (insert, delete, copy) need.
+	{
+		// goal-directed: round one starts from the reads of the goal and the path condition; round two from the
+		// reads of the instances round one added
+		var added []*smt.Term
+		from := asserts[len(asserts)-1:]
+		if len(asserts) >= 2 {
+			from = asserts[len(asserts)-2:]
+		}
+		for round := 0; round < 2 && len(from) > 0; round++ {
+			grounds := map[int][]*smt.Term{}
+			seenG := map[int]bool{}
+			var collect func(t *smt.Term)
+			collect = func(t *smt.Term) {
+				if seenG[t.ID] {
+					return
+				}
+				seenG[t.ID] = true
+				if t.Kind == smt.KQuant {
+					return
+				}
+				if t.Kind == smt.KApp && t.Op == "select" && len(t.Args) == 2 && t.Args[1].Sort == smt.Int && !c.HasVar(t) {
+					if _, lit := t.Args[1].IntVal(); !lit {
+						arr := t.Args[0]
+						dup := false
+						for _, g := range grounds[arr.ID] {
+							if g == t.Args[1] {
+								dup = true
+							}
+						}
+						if !dup && len(grounds[arr.ID]) < 16 {
+							grounds[arr.ID] = append(grounds[arr.ID], t.Args[1])
+						}
+					}
+				}
+				for _, a := range t.Args {
+					collect(a)
+				}
+			}
+			for i := len(from) - 1; i >= 0; i-- {
+				collect(from[i])
+			}
+			added = nil
+			if len(grounds) > 0 {
+				budget := 60
+				for i, a := range asserts {
+					if c.HasQuant(a) && budget > 0 {
+						asserts[i] = ex.expandByMatching(a, grounds, true, &budget, &added)
+					}
+				}
+			}
+			from = added
 		}
 	}
 	// definitions of recursive spec functions that are referenced
@@ -429,7 +493,11 @@ func (ex *Exec) expandForall(t *smt.Term, cands []*smt.Term, pos bool, depth int
 			return t
 		}
 		parts := []*smt.Term{t}
-		for _, cand := range cands {
+		use := cands
+		if !c.HasQuant(t.Args[0]) {
+			use = append(append([]*smt.Term{}, cands...), ex.nbrCands...)
+		}
+		for _, cand := range use {
 			inst := c.Subst(t.Args[0], map[*smt.Term]*smt.Term{t.Bound[0]: cand})
 			inst = ex.expandForall(inst, cands, pos, depth-1)
 			parts = append(parts, inst)
@@ -567,6 +635,112 @@ func (ex *Exec) skolemize(t *smt.Term, pos bool, n *int, sks *[]*smt.Term) *smt.
 			if t.Sort == smt.Bool && !c.HasQuant(t.Args[0]) {
 				return c.Ite(t.Args[0], ex.skolemize(t.Args[1], pos, n, sks), ex.skolemize(t.Args[2], pos, n, sks))
 			}
+		}
+	}
+	return t
+}
+
+// expandByMatching conjoins, to universally quantified subformulas in positive positions, their instances at the
+// values that make one of their array reads coincide with a ground read of the same array (see buildQueryFull).
+func (ex *Exec) expandByMatching(t *smt.Term, grounds map[int][]*smt.Term, pos bool, budget *int, added *[]*smt.Term) *smt.Term {
+	c := ex.W.C
+	if *budget <= 0 || !c.HasQuant(t) {
+		return t
+	}
+	switch t.Kind {
+	case smt.KQuant:
+		if !(pos && t.Op == "forall") || len(t.Bound) != 1 || t.Bound[0].Sort != smt.Int {
+			return t
+		}
+		bv := t.Bound[0]
+		// the reads of the body whose index is  bv  or  x + bv / bv + x  with bv-free array and x
+		type rd struct {
+			arr, off *smt.Term
+		}
+		var reads []rd
+		seen := map[int]bool{}
+		var walk func(u *smt.Term)
+		walk = func(u *smt.Term) {
+			if seen[u.ID] || !c.HasVar(u) {
+				return
+			}
+			seen[u.ID] = true
+			if u.Kind == smt.KApp && u.Op == "select" && len(u.Args) == 2 && !c.HasVar(u.Args[0]) {
+				idx := u.Args[1]
+				switch {
+				case idx == bv:
+					reads = append(reads, rd{u.Args[0], nil})
+				case idx.Kind == smt.KApp && idx.Op == "+" && len(idx.Args) == 2 && idx.Args[1] == bv && !c.HasVar(idx.Args[0]):
+					reads = append(reads, rd{u.Args[0], idx.Args[0]})
+				case idx.Kind == smt.KApp && idx.Op == "+" && len(idx.Args) == 2 && idx.Args[0] == bv && !c.HasVar(idx.Args[1]):
+					reads = append(reads, rd{u.Args[0], idx.Args[1]})
+				}
+			}
+			if u.Kind == smt.KQuant {
+				return
+			}
+			for _, a := range u.Args {
+				walk(a)
+			}
+		}
+		walk(t.Args[0])
+		parts := []*smt.Term{t}
+		done := map[int]bool{}
+		for _, r := range reads {
+			for _, g := range grounds[r.arr.ID] {
+				q := g
+				if r.off != nil {
+					if g.Kind == smt.KApp && g.Op == "+" && len(g.Args) == 2 && g.Args[0] == r.off {
+						q = g.Args[1]
+					} else {
+						q = c.Sub(g, r.off)
+					}
+				}
+				if done[q.ID] || *budget <= 0 {
+					continue
+				}
+				done[q.ID] = true
+				*budget--
+				inst := c.Subst(t.Args[0], map[*smt.Term]*smt.Term{bv: q})
+				parts = append(parts, inst)
+				*added = append(*added, inst)
+			}
+		}
+		if len(parts) == 1 {
+			return t
+		}
+		return c.And(parts...)
+	case smt.KApp:
+		switch t.Op {
+		case "and", "or":
+			args := make([]*smt.Term, len(t.Args))
+			ch := false
+			for i, a := range t.Args {
+				args[i] = ex.expandByMatching(a, grounds, pos, budget, added)
+				if args[i] != a {
+					ch = true
+				}
+			}
+			if !ch {
+				return t
+			}
+			if t.Op == "and" {
+				return c.And(args...)
+			}
+			return c.Or(args...)
+		case "not":
+			a := ex.expandByMatching(t.Args[0], grounds, !pos, budget, added)
+			if a == t.Args[0] {
+				return t
+			}
+			return c.Not(a)
+		case "=>":
+			a := ex.expandByMatching(t.Args[0], grounds, !pos, budget, added)
+			b := ex.expandByMatching(t.Args[1], grounds, pos, budget, added)
+			if a == t.Args[0] && b == t.Args[1] {
+				return t
+			}
+			return c.Implies(a, b)
 		}
 	}
 	return t
